@@ -370,7 +370,14 @@ def add(a, b, op, conflicts=None):
             conflicts.append(("unit", a, b))
         return ANY
     if ka in (LEN, ZERO, CONST) and kb in (LEN, ZERO, CONST):
-        s, _ = join_side(a[2], b[2])
+        sa, sb = a[2], b[2]
+        # a one-sided length plus/minus a both-sided (common) length is still a length of that one side
+        if sa == "B" and sb in ("O", "N"):
+            s = sb
+        elif sb == "B" and sa in ("O", "N"):
+            s = sa
+        else:
+            s, _ = join_side(sa, sb)
         if ka == ZERO and kb == ZERO:
             return S(ZERO)
         return S(LEN, None if s == "X" else s, None)
@@ -467,6 +474,15 @@ class FnEval:
         # new-side value on another: the side degrades to unknown, which still fails closed at an A1-A3 sink.
         # A5 is reserved for containers / map keys (writer-reader agreement).
         old = self.env.get(hid)
+        if isinstance(av, tuple) and av and av[0] in ("M",) and isinstance(old, tuple) and old and old[0] == av[0]:
+            # a map is a writer/reader contract on its key slots: a clash between what was stored and what is looked
+            # up is an A5 finding (reported once, on the stabilised bindings)
+            conflicts = []
+            new = join(old, av, conflicts)
+            sided = "%s with %s" % (show(old), show(av)) if old != av else None
+            self.conflict_check([c for c in conflicts if c[0] == "side"], "map `%s`" % name, line, sided=sided)
+            self.env[hid] = new
+            return
         self.env[hid] = _unx(join(old, av, None))
 
     def apply_name(self, name, av, line, ty=None):
@@ -1060,7 +1076,7 @@ class FnEval:
         self.expect(v, want, "A4", "field:%s.%s" % (adt.rsplit("::", 1)[-1], name),
                     "field `%s.%s`" % (adt.rsplit("::", 1)[-1], name), line)
         if self.report and is_s(want) and want[1] == LEN and want[2] == "B" and is_s(v) and v[1] == LEN and v[2] in ("O", "N"):
-            self.ctx.finding("A4", self.fn, "one-sided-len:%s.%s" % (adt.rsplit("::", 1)[-1], name),
+            self.ctx.finding("A4", self.fn, "one-sided-len:%s.%s:%s" % (adt.rsplit("::", 1)[-1], name, getattr(self, "cur_field_src", "")),
                              "field `%s.%s` is the length of a segment present on both sides but receives the length of the "
                              "%s side only (%s)" % (adt.rsplit("::", 1)[-1], name, _sn(v[2]), show(v)), line)
 
@@ -1262,8 +1278,11 @@ class FnEval:
         if adt == "std::ops::RangeInclusive":
             return R(vals.get("start", (ANY, 0))[0], vals.get("end", (ANY, 0))[0])
         if adt in self.ctx.prog.adts:
+            srcs = {f["name"]: _norm_src(_src_of(f["e"])) for f in e["fields"]}
             for name, (v, line) in vals.items():
+                self.cur_field_src = srcs.get(name, "")
                 self.field_store(adt, name, v, line)
+            self.cur_field_src = ""
             self.ctx.count("struct_literals")
             return A(adt, {k: v for k, (v, _) in vals.items()})
         return ANY
@@ -2141,7 +2160,7 @@ def analyse(prog, opts=None):
             FnEval(ctx, fn, report=False).run()
         ctx.ret_memo = {}
     for fn in fns:
-        if not fn.public and _has_unseeded_relevant_param(ctx, fn) and _is_called_locally(ctx, fn):
+        if not fn.public and fn.spath not in ACCESSORS and _has_unseeded_relevant_param(ctx, fn) and _is_called_locally(ctx, fn):
             # private helper whose parameters carry no sort of their own: its sinks are checked in the context of
             # every call site (context-sensitive evaluation), not in isolation
             ctx.count("helpers_checked_in_context")
